@@ -166,9 +166,12 @@ class Cadence(collections.abc.MutableSequence):
         to :func:`~setigen.frame.Frame.add_signal`.
         """
         for frame in self.frames:
-            frame.ts += frame.t_start - self.t_start
+            # Shift times temporarily; restore the original array afterwards,
+            # since adding and subtracting the offset is not exact
+            ts = frame.ts
+            frame.ts = ts + (frame.t_start - self.t_start)
             frame.add_signal(*args, **kwargs)
-            frame.ts -= frame.t_start - self.t_start
+            frame.ts = ts
         
     def apply(self, func):
         """
